@@ -45,14 +45,18 @@ fn branchers(tier: Tier) -> Vec<BrancherSpec> {
         vec![
             BrancherSpec::Default,
             BrancherSpec::Indep(0, 0),
-            BrancherSpec::Indep(1, 2),
             BrancherSpec::Indep(9, 13),
+            // the selectors that keep their own bookkeeping, inside a DynamicBrancher
+            BrancherSpec::DynamicSplit(9, 1),
+            BrancherSpec::DynamicSplit(8, 4),
         ]
     } else {
         let mut v = BrancherSpec::slice();
         v.push(BrancherSpec::Indep(5, 7));
         v.push(BrancherSpec::Indep(2, 11));
         v.push(BrancherSpec::DynamicSplit(1, 4));
+        v.push(BrancherSpec::DynamicSplit(9, 1));
+        v.push(BrancherSpec::DynamicSplit(8, 4));
         v.push(BrancherSpec::Alternating(3, 0, 1));
         v
     }
